@@ -19,7 +19,7 @@ RULE = ("Hypothesis: original (well-formed, 2 channels, any construction route /
         "that mutates message objects in place (transpose, set_channel, scale, iterator edits). Distinct by case digest.")
 ASSUMPTIONS = ["an operation that raises on one side ends that side's op list; the other side is still compared"]
 TIERS = {"quick": dict(shards=8, examples=500, alt_ppqn=[480], alt_shards=2),
-         "thorough": dict(shards=16, examples=6000, alt_ppqn=[480, 7, 1000], alt_shards=4)}
+         "thorough": dict(shards=16, examples=6000, alt_ppqn=[480, 7, 1000], alt_shards=2)}
 
 ROUTES = ["seq_copy", "split", "split_bars", "bar_copy", "track_copy", "composition_copy"]
 
